@@ -1165,6 +1165,11 @@ impl World {
                     // `Despawn` doesn't need drop.
                     let _ = ctx.unpack();
 
+                    // Spawn all reserved entities first. Freeing a slot would otherwise
+                    // invalidate the keys that were already handed out.
+                    self.reserved_entities
+                        .spawn_all(&mut self.entities, |id| self.archetypes.spawn(id));
+
                     unsafe {
                         self.archetypes
                             .remove_entity(target_location, &mut self.entities)
